@@ -80,8 +80,9 @@ CTYPE = {'raw': 'application/octet-stream', 'urlencoded': 'application/x-www-for
 
 def shards(tier, seed):
     out = []
-    for L in LS:
-        for M in MS:
+    ls, ms = (LS, MS) if tier == 'quick' else (LS + [1, 2, 3, 7, 20, 50], MS + [2, 3, 5, 6, 12, 16, 33])
+    for L in ls:
+        for M in ms:
             for ct in ('raw', 'urlencoded', 'json'):
                 out.append(('plain', L, M, ct, tier))
     for M in ([64] if tier == 'quick' else [64, 100]):
